@@ -1,0 +1,14 @@
+//go:build verif
+
+// Machine-checked contracts for package lnd (comment-only; see /verif/DESIGN.md §2.5).
+
+package lnd
+
+//@ func buildDirectClaimPaymentRequest
+//@ property C04 C05 C24
+//@ requires decoded != nil && channel != nil
+//@ ensures @C04 limit: (result1 == nil && maxTotalCLTVDelta != 0) ==> (decoded.CltvExpiry >= 0 && mi(decoded.CltvExpiry) + 3 <= mi(maxTotalCLTVDelta) && mi(result0.CltvLimit) == mi(maxTotalCLTVDelta) + 1)
+//@ ensures @C05 legacy-limit: (result1 == nil && maxTotalCLTVDelta == 0 && decoded.CltvExpiry >= 0 && decoded.CltvExpiry <= 504) ==> mi(result0.CltvLimit) == mi(decoded.CltvExpiry) + 4
+//@ ensures @C24 dest: result1 == nil ==> decoded.Destination == channel.RemotePubkey
+//@ ensures @C24 single: result1 == nil ==> (result0 != nil && result0.MaxParts == 1 && result0.PaymentRequest == payreq && len(result0.OutgoingChanIds) == 1 && result0.OutgoingChanIds[0] == channel.ChanId && result0.Amt == 0 && result0.AmtMsat == 0)
+//@ ensures @C24 err-nil: result1 != nil ==> result0 == nil
